@@ -96,6 +96,7 @@ package ed25519
 //@ spec nonce(sk, f, cb, cl, m) = ite(f == fPure, lea(sha512(bcat(barr(hseed(sk), 32, 32), m)), 0, 64) % L, lea(sha512(bcat(bconst("SigEd25519 no Ed25519 collisions"), bcons(f, bcons(cl, bnil())), cb, barr(hseed(sk), 32, 32), m)), 0, 64) % L)
 
 //@ func NewKeyFromSeed(seed)
+//@   ct
 //@   panics len(seed) != 32
 //@   modifies nothing
 //@   ensures len(result) == 64 && fresh(result)
@@ -103,6 +104,7 @@ package ed25519
 //@   ensures bytesOf(result[32:64]) == encpt(mulB(sec_a(seed) % L))
 
 //@ func sign(privateKey, message, f, c)
+//@   ct secret privateKey
 //@   inline writeDom2
 //@   panics len(privateKey) != 64
 //@   requires f == fPure || len(c) <= 255
@@ -113,6 +115,7 @@ package ed25519
 //@   ensures cong(le(result[32:64]), nonce(privateKey, f, bytesOf(c), len(c), bytesOf(message)) + hchal(f, bytesOf(c), len(c), bytesOf(result[0:32]), bytesOf(privateKey[32:64]), bytesOf(message)) * sec_a(privateKey), L)
 
 //@ func Sign(privateKey, message)
+//@   ct secret privateKey
 //@   panics len(privateKey) != 64
 //@   modifies nothing
 //@   ensures len(result) == 64 && fresh(result)
@@ -123,6 +126,7 @@ package ed25519
 // crypto.Signer entry point: the variant is selected by the dynamic type of opts, its Hash and its
 // Context; the entropy argument is never used.
 //@ func (PrivateKey).Sign(priv, rand, message, opts)
+//@   ct secret priv pubres 1
 //@   requires opts != nil
 //@   panics maybe
 //@   modifies nothing
@@ -130,6 +134,7 @@ package ed25519
 //@   ensures result1 == nil ==> (len(result0) == 64 && fresh(result0) && le(result0[32:64]) < L)
 
 //@ func GenerateKey(rand)
+//@   ct secret
 //@   modifies nothing
 //@   ensures entropyReads() == 1 && entropyRead(0) == 32
 //@   ensures result2 != nil ==> (result0 == nil && result1 == nil)
@@ -137,17 +142,20 @@ package ed25519
 //@   ensures result2 == nil ==> bytesOf(result1[32:64]) == encpt(mulB(sec_a(result1) % L))
 
 //@ func (PrivateKey).Seed(priv)
+//@   ct
 //@   requires len(priv) >= 32
 //@   modifies nothing
 //@   ensures len(result) == 32 && fresh(result) && bytesOf(result[0:32]) == bytesOf(priv[0:32])
 
 //@ func (PrivateKey).Public(priv)
+//@   ct
 //@   requires len(priv) == 64
 //@   modifies nothing
 //@   ensures len(unwrap(result)) == 32 && fresh(result) && bytesOf(unwrap(result)[0:32]) == bytesOf(priv[32:64])
 
 // Equal is true exactly for byte-identical keys of the same type
 //@ func (PrivateKey).Equal(priv, x)
+//@   ct
 //@   modifies nothing
 //@   ensures istype(x) ==> result == (len(priv) == len(astype(x)) && bytesOf(priv) == bytesOf(astype(x)))
 //@   ensures !istype(x) ==> result == false
@@ -156,3 +164,9 @@ package ed25519
 //@   modifies nothing
 //@   ensures istype(x) ==> result == (len(pub) == len(astype(x)) && bytesOf(pub) == bytesOf(astype(x)))
 //@   ensures !istype(x) ==> result == false
+
+// writeDom2 is executed from its body in the functional proofs (inline); its secrecy clause:
+// the writer is the SHA-512 state, which may already have absorbed secret data.
+//@ func writeDom2(w, f, c)
+//@   ct-only
+//@   ct secret w
